@@ -33,6 +33,7 @@ import (
 //vp:all model (*github.com/bolkedebruin/rdpgw/cmd/rdpgw/transport.LegacyPKT).SendAccept = vpmLGSendAccept
 //vp:all model (*github.com/bolkedebruin/rdpgw/cmd/rdpgw/transport.LegacyPKT).Drain = vpmLGDrainE
 //vp:all stub (*github.com/gorilla/websocket.Upgrader).Upgrade = vpUpgrade
+//vp:all model time.Since = vpmSinceAny
 //vp:all model github.com/gorilla/websocket.IsWebSocketUpgrade = vpIsWSUpgrade
 //vp:all stub (*github.com/gorilla/websocket.Conn).Close = vpWSConnClose
 //vp:all stub (*github.com/gorilla/websocket.Conn).SetReadLimit = vpWSSetReadLimit
